@@ -45,6 +45,21 @@ func run(prop, tier, verifDir string, seed int64, dump string) (code int) {
 		fmt.Printf("BROKEN: property=%s load failed: %v\n", prop, err)
 		return 2
 	}
+	if dump == "@funcs" {
+		for _, n := range ana.ListFuncs(p) {
+			fmt.Println(n)
+		}
+		return 0
+	}
+	if dump == "@norm" {
+		for _, l := range p.NormLog {
+			fmt.Println(l)
+		}
+		for f, b := range p.Overlay {
+			fmt.Printf("==== %s\n%s\n", f, b)
+		}
+		return 0
+	}
 	if dump != "" {
 		rules.Dump(p, dump)
 		return 0
